@@ -55,13 +55,13 @@ func c05RecvVars(n c04Num) []c05Var {
 func c05ArgVars(n c04Num) []c05Var {
 	var out []c05Var
 	seen := map[string]bool{}
-	for i := 0; i < 5; i++ {
+	for i := 0; i < 8; i++ {
 		l := n.lit(i)
 		if seen[l] {
 			continue
 		}
 		seen[l] = true
-		out = append(out, c05Var{name: "literal:" + []string{"plain", "coef-e-exp", "scientific", "trailing-zero", "scientific-E+"}[i], tv: tvNil(), arg: l})
+		out = append(out, c05Var{name: "literal:" + []string{"plain", "coef-e-exp", "scientific", "trailing-zero", "scientific-E+", "leading-zero", "leading-zeros+separator", "separator"}[i], tv: tvNil(), arg: l})
 	}
 	for _, v := range c05RecvVars(n) {
 		out = append(out, c05Var{name: "path:" + v.name, tv: v.tv, arg: "$.b"})
@@ -232,7 +232,7 @@ func (v c05Val) data(r *rng) *TV {
 func (v c05Val) literal(r *rng) string {
 	switch v.k {
 	case 'n':
-		return v.n.lit(r.Intn(5))
+		return v.n.lit(r.Intn(8))
 	case 's':
 		if strings.ContainsAny(v.s, "\"\\\n") {
 			return ""
